@@ -53,4 +53,13 @@ For each change deliver, under {wt}/out/<a|b|c|...>/:
   * `meta.json` with keys: "property" ("{pid}"), "clause" (the clause of the statement it breaks, quoted), "summary" (what the change does), "needs" (what specific input / option / sequence / interleaving is needed for the violation to manifest), "why_tests_pass" (why the existing suite does not notice), "commands" (what you ran to confirm).
 When finished, leave the worktree source UNMODIFIED (`git checkout -- .` and remove your new test files from tests/ - keep copies only under out/), and reply with a short summary of the changes.
 """
+if rnd == "h":
+    head, tail = text.split("Your task: play a careless or unlucky developer.", 1)
+    text = head + f"""Your task: play a diligent maintainer doing clean-up. Produce SIX DIFFERENT source changes (six separate patches, each applying on its own to the unmodified worktree) to the functions the property names under its anchors (and their immediate helpers) that are BEHAVIOUR-PRESERVING: after each change the crate must behave exactly as before on every input, schedule and fault - the property above must still hold, for the same reasons - the crate must still COMPILE without new warnings and the EXISTING test suite must still PASS (`cargo test --offline` with default features, and with `--features "websocket value-stream"`). The six must differ in KIND, for example: (1) renaming locals / reordering independent statements / introducing or removing a temporary; (2) replacing a control-flow idiom by an equivalent one (`match` <-> `if let` / `let else`, early return <-> nested branch, `loop`+`break` <-> `while`, iterator chain <-> explicit loop); (3) extracting a private helper function or inlining one; (4) replacing an arithmetic or comparison expression by a provably equivalent one for ALL values of the types involved (say why it is equivalent, including at the extremes of the integer types); (5) changing a data-structure operation to an equivalent one (e.g. `entry` API vs `get`+`insert`, `retain` vs filter-and-rebuild, `extend_from_slice` vs `extend`), keeping order and duplicates exactly; (6) moving code between functions / impl blocks / modules, changing visibility of private items, editing comments and log texts that are not part of any returned value. Spread them over different functions among those the property names. Each must be a change a careful reviewer would approve as a pure refactoring. Be strict with yourself: if you are not certain a change is behaviour-preserving in every corner (overflow, empty input, error paths, lock scope, drop order, wake-ups, ordering of observable effects), pick another one. The change must be in the library source (src/), not in tests.
+
+For each change deliver, under {wt}/out/<a|b|c|d|e|f>/:
+  * `patch.diff` - `git diff` of the change against the unmodified worktree (only src/ changes);
+  * `meta.json` with keys: "property" ("{pid}"), "kind" (which of the kinds above), "summary" (what the change does), "why_equivalent" (the argument that behaviour is unchanged in every corner), "commands" (what you ran to confirm: build, both test-suite runs).
+When finished, leave the worktree source UNMODIFIED (`git checkout -- .`), and reply with a short summary of the changes.
+"""
 print(text)
